@@ -125,6 +125,10 @@ pub fn run_chain<S: Settings>(sc: &J) -> Result<(), String> {
         .as_u64()
         .unwrap_or((settings.hint_num_tune() + settings.hint_num_draws()) as u64);
     for n in 0..total {
+        if verif::local_sink_len() > 1_500_000 {
+            emit(json!({"ev": "truncated", "n": n}));
+            break;
+        }
         let r = std::panic::catch_unwind(std::panic::AssertUnwindSafe(|| chain.expanded_draw()));
         match r {
             Ok(Ok((pos, _expanded, mut stats, progress))) => {
